@@ -455,6 +455,73 @@ theorem staticOrder_perm (g : G) (out : List String) (h : staticOrder g = some o
   obtain ⟨h1, h2, _⟩ := staticOrder_spec g out h
   exact (List.subperm_of_subset h1 h2).perm_of_length_le (by rw [staticOrder_length g out h])
 
+/-! ### no order exists for a cyclic graph: completeness of the cycle detection -/
+
+/-- `a` is registered (transitively) as a predecessor of `b` -/
+inductive Before (g : G) : String → String → Prop
+  | edge {a b} : (a, b) ∈ edges g → Before g a b
+  | trans {a b c} : Before g a b → Before g b c → Before g a c
+
+theorem respects_idx (g : G) : ∀ (todo done : List String), respects g done todo = true → (done ++ todo).Nodup →
+    ∀ e ∈ edges g, e.2 ∈ todo → e.1 ∈ done ∨ (e.1 ∈ todo ∧ todo.idxOf e.1 < todo.idxOf e.2)
+  | [], _, _, _, _, _, h => by cases h
+  | s :: rest, done, hr, hnd, e, he, hmem => by
+    simp only [respects, Bool.and_eq_true, List.all_eq_true, Bool.or_eq_true, bne_iff_ne, ne_eq] at hr
+    obtain ⟨hs, hrest⟩ := hr
+    have hs_notin : s ∉ rest := by
+      have := (List.nodup_append.mp hnd).2.1
+      exact (List.nodup_cons.mp this).1
+    by_cases h2 : e.2 = s
+    · left
+      rcases hs e he with h | h
+      · exact absurd h2 h
+      · simpa using h
+    · have hmem' : e.2 ∈ rest := by
+        rcases List.mem_cons.mp hmem with h | h
+        · exact absurd h h2
+        · exact h
+      have ih := respects_idx g rest (done ++ [s]) hrest (by simpa [List.append_assoc] using hnd) e he hmem'
+      rcases ih with h | ⟨h1, h3⟩
+      · rcases List.mem_append.mp h with h | h
+        · exact Or.inl h
+        · right
+          have h1s : e.1 = s := by simpa using h
+          refine ⟨by simp [h1s], ?_⟩
+          rw [h1s, List.idxOf_cons_self]
+          rw [List.idxOf_cons_ne _ (fun e' => h2 e'.symm)]
+          exact Nat.succ_pos _
+      · right
+        have hne1 : e.1 ≠ s := by intro e'; rw [e'] at h1; exact hs_notin h1
+        refine ⟨List.mem_cons_of_mem _ h1, ?_⟩
+        rw [List.idxOf_cons_ne _ (fun e' => hne1 e'.symm), List.idxOf_cons_ne _ (fun e' => h2 e'.symm)]
+        exact Nat.succ_lt_succ h3
+
+/-- in ANY duplicate-free list that respects the registrations and contains every node that has a predecessor, the position
+    strictly increases along every registration -/
+theorem pos_of_respects (g : G) (out : List String) (hnd : out.Nodup) (hr : respects g [] out = true)
+    (hall : ∀ e ∈ edges g, e.2 ∈ out) : ∀ a b, Before g a b → out.idxOf a < out.idxOf b := by
+  intro a b hab
+  induction hab with
+  | edge he =>
+    rename_i a b
+    rcases respects_idx g out [] hr (by simpa using hnd) (a, b) he (hall (a, b) he) with h | ⟨_, h⟩
+    · cases h
+    · exact h
+  | trans _ _ ih1 ih2 => exact Nat.lt_trans ih1 ih2
+
+/-- along every registration the position in the returned order strictly increases -/
+theorem staticOrder_pos (g : G) (out : List String) (h : staticOrder g = some out) :
+    ∀ a b, Before g a b → out.idxOf a < out.idxOf b := by
+  obtain ⟨h1, _, h3⟩ := staticOrder_spec g out h
+  have hperm := staticOrder_perm g out h
+  exact pos_of_respects g out h1 h3 (fun e he => hperm.mem_iff.mpr (edge_target_mem_nodes g e he))
+
+/-- **a cyclic graph has no static order**: if anything is (transitively) its own predecessor, `static_order` fails -/
+theorem staticOrder_none_of_cycle (g : G) (a : String) (hc : Before g a a) : staticOrder g = none := by
+  cases h : staticOrder g with
+  | none => rfl
+  | some out => exact absurd (staticOrder_pos g out h a a hc) (Nat.lt_irrefl _)
+
 end Graph
 
 /-! ### `_topological_sort` of an aggregation dictionary -/
@@ -527,6 +594,27 @@ theorem topoOK_of_respects (d : AggDict) : ∀ (todo done : List String), (done 
         rcases hpreds (t, r) hedge with h | h
         · exact absurd rfl h
         · simpa using h
+
+/-- `r` is decomposed (possibly through several nested entries) into the decomposed resource `t` -/
+inductive DecomposesInto (d : AggDict) : String → String → Prop
+  | step {r t m} : d.get? r = some m → t ∈ m.keys → d.contains t = true → DecomposesInto d r t
+  | trans {r s t} : DecomposesInto d r s → DecomposesInto d s t → DecomposesInto d r t
+
+theorem before_of_decomposesInto (d : AggDict) {r t : String} (h : DecomposesInto d r t) : Graph.Before (aggGraph d) t r := by
+  induction h with
+  | step hg ht hc =>
+    rename_i r t m
+    apply Graph.Before.edge
+    simp only [Graph.edges, aggGraph, List.mem_flatMap, List.mem_map]
+    refine ⟨(r, (m.keys.filter d.contains).eraseDups), ⟨(r, m), Dict.get?_some_mem' d r m hg, rfl⟩, t, ?_, rfl⟩
+    simp only [List.mem_eraseDups, List.mem_filter]
+    exact ⟨ht, hc⟩
+  | trans _ _ ih1 ih2 => exact Graph.Before.trans ih2 ih1
+
+/-- **a cyclic dictionary has no expansion order** -/
+theorem aggOrder_none_of_cycle (d : AggDict) (r : String) (h : DecomposesInto d r r) : aggOrder d = none := by
+  rw [aggOrder_eq]
+  exact Graph.staticOrder_none_of_cycle _ r (before_of_decomposesInto d h)
 
 /-- **the order `_topological_sort` returns is a valid expansion order** -/
 theorem aggOrder_topoOK (d : AggDict) (order : List String) (h : aggOrder d = some order) : topoOK d [] order = true := by
